@@ -779,6 +779,8 @@ def grp_spatial(cx, tier):
     F = Fraction
     cx.ob("C17.O6", "linsteps [0,1,3] num=2", "segment-wise linspace without end points, last point appended", c_lin([0, 1, 3], 2, [0, F(1, 2), 1, 2, 3]))
     cx.ob("C17.O6", "linsteps [0,1,3] num=[2,4]", "per-segment numbers of steps", c_lin([0, 1, 3], [2, 4], [0, F(1, 2), 1, F(3, 2), 2, F(5, 2), 3]))
+    cx.ob("C17.O6", "linsteps [0,1,3,4] num=[2,4] (short)", "a num sequence shorter than the number of segments is continued with its last entry",
+          c_lin([0, 1, 3, 4], [2, 4], [0, F(1, 2), 1, F(3, 2), 2, F(5, 2), 3, F(13, 4), F(7, 2), F(15, 4), 4]))
     cx.ob("C17.O6", "linsteps endpoint=False", "endpoint=False omits the last point", c_lin([0, 1, 3], 2, [0, F(1, 2), 1, 2], endpoint=False))
     cx.ob("C17.O6", "linsteps [1,-1] num=4", "decreasing segment", c_lin([1, -1], 4, [1, F(1, 2), 0, F(-1, 2), -1]))
     cx.ob("C17.O6", "linsteps axis=1 axes=3", "axis embedding: steps placed in column `axis`, other columns hold `values`",
